@@ -180,7 +180,9 @@ def halfWindow (cfg : Cfg) (e : ExtSt) (delay noise : F64) : F64 :=
   F64.add (F64.add (F64.mul noise cfg.linkW) (F64.mul e.lastU cfg.offW))
     (F64.mul (F64.add delay e.rootDelay) cfg.delayW)
 
-/-- `LinkInfo::offset_window` -/
+/-- `LinkInfo::offset_window` (code as FIXED by fixes/C43-negative-window.patch: a negative half window —
+    negative configuration weights — gives no window; before, it gave a window with low > high and the
+    consensus sweep underflowed) -/
 def offsetWindow (l : FLink) (cfg : Cfg) (est : E) : RF (Option Window) :=
   match l.ext with
   | none => .ok none
@@ -196,7 +198,7 @@ def offsetWindow (l : FLink) (cfg : Cfg) (est : E) : RF (Option Window) :=
         | none => pure none
         | some (delay, noise) =>
           let half := halfWindow cfg e delay noise
-          if F64.lt half cfg.maxW then
+          if F64.ge half F64.zero && F64.lt half cfg.maxW then
             pure (some ⟨F64.sub (F64.sub avg internalOffset) half, F64.add (F64.sub avg internalOffset) half⟩)
           else pure none
 
